@@ -178,7 +178,7 @@ func (k *call) protect(f func()) {
 	f()
 }
 
-func (k *call) rnd(tag string, n int) []byte { return vk.Expand(k.c.Seed^vk.FP(tag), n) }
+func (k *call) rnd(tag string, n int) []byte { return expand(k.c.Seed^vk.FP(tag), n) }
 
 func flip(b []byte, seed uint64) []byte {
 	out := append([]byte{}, b...)
